@@ -45,10 +45,12 @@ pub struct NProbe<C> {
     pub calls: u32,
     /// If false, `fill_contiguous` stops pulling after `w*h` colours (like a zip-based driver).
     pub drain: bool,
+    /// sum of width*height over all fill_contiguous areas received
+    pub area_pixels: u32,
 }
 impl<C: PixelColor> NProbe<C> {
     pub fn new(q: Point, bb: Rectangle) -> Self {
-        Self { q, last: None, writes: 0, bb, pulled: 0, calls: 0, drain: true }
+        Self { q, last: None, writes: 0, bb, pulled: 0, calls: 0, drain: true, area_pixels: 0 }
     }
 }
 impl<C: PixelColor> Dimensions for NProbe<C> {
@@ -81,6 +83,7 @@ impl<C: PixelColor> DrawTarget for NProbe<C> {
         self.calls += 1;
         let w = area.size.width as i64;
         let h = area.size.height as i64;
+        self.area_pixels = self.area_pixels.saturating_add((w * h) as u32);
         let idx: i64 = if in_rect(area, self.q) {
             (self.q.y as i64 - area.top_left.y as i64) * w + (self.q.x as i64 - area.top_left.x as i64)
         } else {
